@@ -90,6 +90,7 @@ impl StoreModel {
         let k = self.kgs.get_mut(kg).ok_or("kg not found")?;
         k.rels.remove(rel);
         k.schemas.remove(rel);
+        k.rules.remove(rel);
         Ok(())
     }
 
